@@ -75,12 +75,21 @@ def gen_c11_spec(rng: random.Random) -> Dict[str, Any]:
         "cfg": {"A": rng.choice([1, 2, None]), "P": rng.choice([0, 1]), "propagate": rng.random() < 0.75},
         "client_sends": sends, "loopback": True, "msgs": [], "mws": mws,
         "retry": {"default_count": default_count, "default_label": default_label, "no_result_on_retry": nro,
-                  "pos": rng.choice([0, 1])},
+                  "pos": rng.choice([0, 1]), "subclass": rng.random() < 0.3},
         "backend": {"lat": rng.choice([0, "y", 0.01]), "stock": rng.random() < 0.4},
         # the broker hands out acknowledgeable messages (an at-least-once broker re-delivers what is never acked)
         "loop_ackable": rng.random() < 0.5,
         "stop_at": 30.0, "horizon": 60.0, "_meta": meta,
     }
+    if rng.random() < 0.25:
+        # the task declares labels of its own (decorator); an invocation sent with other values keeps *its* values on
+        # every re-send
+        spec["tasks"] = {"t_decl": {"fn": "async", "labels": {"max_retries": rng.choice([0, 5]), "team": "core", "retry_on_error": rng.random() < 0.5}}}
+        for s_ in sends:
+            if s_["task"] == "t_async" and rng.random() < 0.7:
+                s_["task"] = "t_decl"
+                if rng.random() < 0.5:
+                    s_["labels"]["team"] = "billing"
     if rng.random() < 0.2:
         # the same through the bundled InMemoryBroker (kick() starts the execution itself) and its result backend;
         # nothing here takes time, so attempts cannot overtake each other
